@@ -133,4 +133,9 @@ def check(ctx: Ctx) -> str:
     be = repo.func("ext:babel_extract")
     s = ast.unparse(be.node)
     ctx.check("environment.newstyle_gettext = True" in s and "environment.policies['ext.i18n.trimmed'] = True" in s, "babel:options", "ext:babel_extract", "extension options", "babel_extract must honour the trimmed and newstyle_gettext options", be.loc())
+    # old-style trans blocks mark their result with MarkSafeIfAutoescape and new-style ones with
+    # a run-time test in the wrapper: both must follow the *run-time* autoescape setting
+    from ..escrules import runtime_selector_rule
+
+    runtime_selector_rule(ctx, "R6")
     return __doc__ or ""
